@@ -295,7 +295,6 @@ impl Uci {
             }
             UciCommand::UciNewGame => {
                 self.game = Game::new();
-                self.is_stopped.reset();
                 #[cfg(jgilchrist_tcheran_verif)]
                 verif_point("newgame.after_reset");
 
@@ -353,6 +352,11 @@ impl Uci {
                     TimeStrategy::new(&self.game, &time_control, &options);
 
                 self.control = Some(control);
+
+                // The latch tells 'stop' when the most recent search has reported its move, so it
+                // is re-armed here, when that search starts. (It used to be reset by 'ucinewgame',
+                // after which a 'stop' waited forever for a search that had long finished.)
+                self.is_stopped.reset();
 
                 let search_restrictions = SearchRestrictions { depth: *depth };
 
